@@ -181,6 +181,7 @@ type State struct {
 	NoSched   bool
 	NeedSched bool
 	PoolReuse bool
+	TimerFired int
 	VisibleAtomics bool
 	ConcreteClock bool
 	ClockTick int64
@@ -217,7 +218,7 @@ func (st *State) fork() *State {
 	n := &State{
 		id: stateSeq, nextObj: st.nextObj, Cur: st.Cur,
 		Steps: st.Steps, SymBr: st.SymBr, PanicLbl: st.PanicLbl, Depth: st.Depth, Preempts: st.Preempts,
-		LastNow: st.LastNow, Epoch: st.Epoch, NoSched: st.NoSched, NeedSched: st.NeedSched, PoolReuse: st.PoolReuse, VisibleAtomics: st.VisibleAtomics, ConcreteClock: st.ConcreteClock, ClockTick: st.ClockTick,
+		LastNow: st.LastNow, Epoch: st.Epoch, NoSched: st.NoSched, NeedSched: st.NeedSched, PoolReuse: st.PoolReuse, TimerFired: st.TimerFired, VisibleAtomics: st.VisibleAtomics, ConcreteClock: st.ConcreteClock, ClockTick: st.ClockTick,
 	}
 	// the parent also needs a new id so that neither mutates shared objects in place
 	stateSeq++
